@@ -54,7 +54,7 @@ def cases(tier, seed):
         if fam in ("gamma-exponential", "gamma-poisson", "normal-normal") and i % 19 == 5:
             out[-1]["big_data"] = True
         if fam == "mvn":
-            out[-1]["q_param"] = ["covariance_matrix", "precision_matrix", "scale_tril"][(i // len(FAMILIES)) % 3]
+            out[-1]["q_param"] = ["covariance_matrix", "precision_matrix", "scale_tril", "scale_tril_transformed"][(i // len(FAMILIES)) % 4]
         if i % 4 == 1:
             out[-1]["q_history"] = True  # q starts somewhere else, is used once, and is then moved to the posterior through its parameters
         if fam == "normal-affine" and i % 2 == 0:
@@ -187,10 +187,18 @@ def build(case):
         qm = mn + (0.2 if off else 0.0)
         qS = Sn * (1.3 if off else 1.0)
         qpar = case.get("q_param", "covariance_matrix")
-        qval = {"covariance_matrix": qS, "precision_matrix": np.linalg.inv(qS), "scale_tril": np.linalg.cholesky(qS)}[qpar]
-        q = {"id": "q", "type": "MultivariateNormal", "x": "z", "parameters": {"loc": P("q.m", qm.tolist()), qpar: P("q.S", qval.tolist())}}
+        L = np.linalg.cholesky(qS)
+        if qpar == "scale_tril_transformed":
+            # the Cholesky factor through the triangular transform the full-rank family of torchtree-cli uses (row-major lower
+            # triangle, logarithms on the diagonal)
+            packed = [float(np.log(L[i, j]) if i == j else L[i, j]) for i in range(d) for j in range(i + 1)]
+            q = {"id": "q", "type": "MultivariateNormal", "x": "z", "parameters": {"loc": P("q.m", qm.tolist()), "scale_tril": {
+                "id": "q.S", "type": "TransformedParameter", "transform": "TrilExpDiagonalTransform", "x": P("q.S.unres", packed)}}}
+        else:
+            qval = {"covariance_matrix": qS, "precision_matrix": np.linalg.inv(qS), "scale_tril": L}[qpar]
+            q = {"id": "q", "type": "MultivariateNormal", "x": "z", "parameters": {"loc": P("q.m", qm.tolist()), qpar: P("q.S", qval.tolist())}}
         ref = {"logq": lambda z: stats.multivariate_normal.logpdf(z, qm, qS), "entropy": stats.multivariate_normal.entropy(qm, qS)}
-        return {"p": p, "q": q, "joint_terms": prior_terms + ["lik%d" % i for i in range(nobs)], "logZ": float(logZ), "ref": ref, "latent": "z", "qparam": "q.m"}
+        return {"p": p, "q": q, "joint_terms": prior_terms + ["lik%d" % i for i in range(nobs)], "logZ": float(logZ), "ref": ref, "latent": "z", "qparam": "q.m", "tril": L}
     raise ValueError(fam)
 
 
@@ -299,7 +307,11 @@ def run_case(case):
 
         qd = copy.deepcopy(b["q"])
         for key, pv in qd["parameters"].items():
-            if isinstance(pv, dict) and "tensor" in pv:
+            if isinstance(pv, dict) and pv.get("type") == "TransformedParameter":
+                # starts at the identity factor; later the Cholesky factor itself is assigned through the transformed parameter
+                final[pv["id"]] = np.asarray(b["tril"], dtype=float)
+                pv["x"] = dict(pv["x"], tensor=[0.0] * len(pv["x"]["tensor"]))
+            elif isinstance(pv, dict) and "tensor" in pv:
                 t = np.asarray(pv["tensor"], dtype=float)
                 final[pv["id"]] = t
                 start = np.eye(t.shape[0]) if t.ndim == 2 else (np.zeros_like(t) if pv["id"] == "q.m" else np.ones_like(t))
